@@ -227,4 +227,14 @@ def explain : Nat → List (Nat × Int) → List Obs → Bool
     (List.range (chan.length + 1)).any fun k =>
       sameMap (foldQueue [] (chan.take k)) batch && explain fuel (chan.drop k) rest
 
+/-- when the values stored in a node only grow, the values sent for a client handle never
+    go back: every `cn` reads the then-current value under the lock under which it sends -/
+def monoOK : List (Nat × Int) → List Obs → Bool
+  | _, [] => true
+  | seen, .enq h v :: rest =>
+    (match seen.find? (·.1 == h) with
+     | some (_, w) => decide (w ≤ v)
+     | none => true) && monoOK ((seen.filter (·.1 != h)) ++ [(h, v)]) rest
+  | seen, .pub _ :: rest => monoOK seen rest
+
 end Opcua.Mon
